@@ -1,4 +1,195 @@
+(* C19 -- Malformed input from the peer is contained on both sides.
+   Property statements only; proofs live in Proofs/Parsers.v.
+   Everything is quantified over ALL byte strings / line lists (list Z of any length and
+   content), every codec `dec` (None = UnicodeDecodeError), every line limit, and every date
+   parser `ls_date` / `win_date` (the strptime-based library calls are parameters of the model)
+   whose exceptions stay inside the funnel (they raise only ValueError: checked on every input
+   of the correspondence). *)
 From Coq Require Import ZArith List Bool.
-From Verif Require Import Lib.Sx Lib.PyStr Model.Parsers Proofs.Parsers.
-Theorem C19_stub : True. Proof. exact stub. Qed.
-Print Assumptions C19_stub.
+From Verif Require Import Lib.Sx Lib.PyStr Lib.PyStr3 Model.Framing Model.Parsers Proofs.Parsers.
+Import ListNotations.
+Open Scope Z_scope.
+
+(* For listing lines always the documented ValueError: parse_list_line returns a value or raises
+   exactly ValueError, on every byte string (each inner parser's classes -- UnicodeDecodeError,
+   IndexError, KeyError, ValueError -- are inside the (ValueError, KeyError, IndexError) funnel). *)
+Theorem C19_list_line_value_error_only :
+  forall (dec : list Z -> option text) (ls_date win_date : text -> result text),
+  (forall s, allowed funnel (ls_date s)) ->
+  (forall s, allowed funnel (win_date s)) ->
+  forall b : list Z,
+    (exists v, parse_list_line dec ls_date win_date b = Ok v)
+    \/ parse_list_line dec ls_date win_date b = Exc ValueError.
+Proof. exact list_line_value_error_only. Qed.
+Print Assumptions C19_list_line_value_error_only.
+
+(* ... and what it returns always carries a type fact (so Client.list never raises KeyError
+   in LIST mode) *)
+Theorem C19_list_line_typed :
+  forall dec ls_date win_date b, ok_sat has_type (parse_list_line dec ls_date win_date b).
+Proof. exact list_line_has_type. Qed.
+Print Assumptions C19_list_line_typed.
+
+(* Every other parser returns a value or an ordinary exception from a stated finite set:
+     parse_unix_mode {KeyError, IndexError, ValueError}; parse_mlsx_line {UnicodeDecodeError};
+     parse_pasv_response, parse_epsv_response {ValueError, IndexError}; Client.stat's MLST half
+     {IndexError}; the unix / windows line parsers {funnel}; parse_directory_response is a total
+     function to a path (no exception at all: its type says so).  All of them are total Gallina
+     functions by structural recursion on the input (no fuel): the Python loops they stand for
+     are `for ch in s`, re.finditer / findall over a finite string, and str methods. *)
+Theorem C19_parsers_ordinary :
+  (forall s, allowed mode_set (parse_unix_mode s))
+  /\ (forall dec b, allowed decode_set (parse_mlsx_line dec b))
+  /\ (forall s, allowed passive_set (parse_pasv_response s))
+  /\ (forall s, allowed passive_set (parse_epsv_response s))
+  /\ (forall info, allowed index_set (stat_mlst info))
+  /\ (forall dec ls_date b, (forall s, allowed funnel (ls_date s)) ->
+                            allowed funnel (parse_list_line_unix dec ls_date b))
+  /\ (forall dec win_date b, (forall s, allowed funnel (win_date s)) ->
+                             allowed funnel (parse_list_line_windows dec win_date b))
+  /\ (forall e, (mode_set e || decode_set e || passive_set e || index_set e || funnel e
+                 || reply_set e) = true -> ordinary e = true).
+Proof. exact parsers_ordinary. Qed.
+Print Assumptions C19_parsers_ordinary.
+
+(* parse_response on the lines of ANY finite byte stream terminates (structural recursion: one
+   line per iteration) with a value, StatusCodeError, ConnectionResetError, UnicodeDecodeError or
+   the ValueError of an over-long line; what it read is a prefix of the stream, at least one line
+   of it. *)
+Theorem C19_reply_loop_terminates :
+  forall dec limit (ls : list (list Z)),
+    rclass_ok (reply_parse dec limit ls) /\ consumes ls (reply_parse dec limit ls).
+Proof. exact reply_parse_spec. Qed.
+Print Assumptions C19_reply_loop_terminates.
+
+(* on lines within the limit that decode it is exactly the C06 model of parse_response *)
+Theorem C19_reply_loop_is_framing :
+  forall dec limit ls ts,
+    Forall2 (reads dec limit) ls ts ->
+    same_outcome dec limit (Framing.parse_response ts) (reply_parse dec limit ls).
+Proof. exact reply_parse_framing. Qed.
+Print Assumptions C19_reply_loop_is_framing.
+
+(* The lister of Client.list: each iteration ends the listing, or consumes one line of the data
+   connection (queueing at most one directory), or pops one queued directory and one answer of
+   the server ... *)
+Theorem C19_lister_progress :
+  forall (L : Type) (parse : bool -> L -> result (text * dict)) rec cur mode lines queue sc acc reqs,
+    (forall f, lister_loop L parse (S f) rec cur mode lines queue sc acc reqs
+               = lister_loop L parse 1 rec cur mode lines queue sc acc reqs
+               /\ ending (lister_loop L parse 1 rec cur mode lines queue sc acc reqs) <> LFuel)
+    \/ exists cur' mode' lines' queue' sc' acc' reqs',
+         lprogress L lines queue sc lines' queue' sc'
+         /\ forall f, lister_loop L parse (S f) rec cur mode lines queue sc acc reqs
+                      = lister_loop L parse f rec cur' mode' lines' queue' sc' acc' reqs'.
+Proof. exact lister_progress. Qed.
+Print Assumptions C19_lister_progress.
+
+(* ... hence on EVERY finite script of server answers (any line parser, recursive or not, any
+   content incl. '.' and '..' entries, any depth) Client.list terminates: the fuel, which stands
+   for the Python `while True`, is never exhausted *)
+Theorem C19_lister_terminates :
+  forall (L : Type) (parse : bool -> L -> result (text * dict)) rec path (sc : script L),
+    ending (run_lister L parse rec path sc) <> LFuel.
+Proof. exact run_lister_terminates. Qed.
+Print Assumptions C19_lister_terminates.
+
+(* '.' and '..' are never yielded nor queued: no yielded entry is named '.' or '..', and every
+   directory the client ever asks for is the one it was given or the path of a yielded,
+   non-dot directory entry *)
+Theorem C19_dots_never_yielded_nor_queued :
+  forall (L : Type) (parse : bool -> L -> result (text * dict)) rec path (sc : script L),
+    let r := run_lister L parse rec path sc in
+    Forall nodot (yields r) /\ Forall (from_yield path (yields r)) (requests r).
+Proof. exact dots_never_yielded_nor_queued. Qed.
+Print Assumptions C19_dots_never_yielded_nor_queued.
+
+(* How Client.list can end: normally; with ValueError (or its subclass UnicodeDecodeError) from a
+   line; with the server's refusal (StatusCodeError); or -- the defect below -- with KeyError. *)
+Theorem C19_lister_classes :
+  forall dec ls_date win_date limit,
+  (forall s, allowed funnel (ls_date s)) -> (forall s, allowed funnel (win_date s)) ->
+  forall rec path (sc : script (list Z)),
+    lend_ok value_error
+      (ending (run_lister (list Z) (parse_data_line dec ls_date win_date limit) rec path sc)).
+Proof. exact lister_classes_data_line. Qed.
+Print Assumptions C19_lister_classes.
+
+(* FULL STATEMENT (properties.jsonl: "for listing lines always the documented ValueError ...
+   reports a line it cannot parse instead of dropping it"):
+     unparseable_reported: for every script, Client.list either yields every line that is not
+     an explicit '.' / '..' entry, or raises ValueError.
+   It FAILS on today's code (known findings F12a, F12b, F12c), faithfully modelled: *)
+Theorem C19_unparseable_reported_refuted :
+  exists b : list Z,
+    existsb (Z.eqb SP) b = false
+    /\ run_lister oline (parse_oline utf8 65536) false root_path [(false, [mlsd_line b])]
+       = {| yields := []; requests := [root_path]; ending := LDone |}.
+Proof. exact unparseable_reported_refuted. Qed.
+Print Assumptions C19_unparseable_reported_refuted.
+
+Theorem C19_listing_value_error_refuted :
+  exists b : list Z,
+    ending (run_lister oline (parse_oline utf8 65536) false root_path [(false, [mlsd_line b])])
+    = LRaised KeyError.
+Proof. exact listing_value_error_refuted. Qed.
+Print Assumptions C19_listing_value_error_refuted.
+
+Theorem C19_list_nameless_dropped_refuted :
+  exists (b : list Z) (date : text),
+    run_lister oline (parse_oline utf8 65536) false root_path
+               [(true, [(b, Ok date, Exc ValueError)])]
+    = {| yields := []; requests := [root_path]; ending := LDone |}.
+Proof. exact list_nameless_dropped_refuted. Qed.
+Print Assumptions C19_list_nameless_dropped_refuted.
+
+(* What IS true (carved): a listing that completes has parsed every line, and the lines it did
+   not yield are exactly those whose PARSED name is '.' or '..' -- a line on which the line
+   parser raises is never dropped.  (Missing: a line without a name column / pathname parses to
+   the name '.', F12a/F12c.) *)
+Theorem C19_unparseable_reported_partial :
+  forall (L : Type) (parse : bool -> L -> result (text * dict)) rec path m (lines : list L),
+    let r := run_lister L parse rec path [(m, lines)] in
+    ending r = LDone ->
+    (length (yields r) + length (filter (dropped L parse m) lines) = length lines)%nat
+    /\ Forall (fun l => exists v, parse m l = Ok v) lines.
+Proof. exact completed_listing_accounts. Qed.
+Print Assumptions C19_unparseable_reported_partial.
+
+(* ... and when every directory is listed with LIST (parse_list_line), the only exceptions are
+   ValueError / the server's refusal: no KeyError (missing for MLSD: F12b) *)
+Theorem C19_listing_value_error_partial :
+  forall dec ls_date win_date limit,
+  (forall s, allowed funnel (ls_date s)) -> (forall s, allowed funnel (win_date s)) ->
+  forall rec path (sc : script (list Z)),
+    lend_ok_typed value_error
+      (ending (run_lister (list Z) (fun _ => parse_data_line dec ls_date win_date limit true) rec path sc)).
+Proof. exact listing_value_error_partial. Qed.
+Print Assumptions C19_listing_value_error_partial.
+
+(* Server side.  For every except-ladder that passes the closed check `ladder_contains` (every
+   class parse_command can raise -- ValueError of the line limit, UnicodeDecodeError,
+   ConnectionResetError -- and the idle TimeoutError is caught, logged and ends the session),
+   whatever bytes a session receives: no exception leaves the dispatcher, every OTHER session's
+   record is untouched, and when the line cannot be read the session is released. *)
+Theorem C19_server_line_contained :
+  forall (S : Type) (handle : S -> text -> text -> option S) (lad : ladder) dec limit,
+    ladder_contains lad = true ->
+    forall (srv : sessions S) sid ls,
+    exists srv', deliver S handle lad dec limit srv sid ls = Served S srv'
+      /\ (forall sid', sid' <> sid -> find_session S sid' srv' = find_session S sid' srv)
+      /\ (forall e, server_parse_command dec limit ls = CmdExc e -> find_session S sid srv' = None).
+Proof. exact server_line_contained. Qed.
+Print Assumptions C19_server_line_contained.
+
+(* TODO(lead, on merge): instantiate with the ladder regenerated in Gen/Dispatch.v *)
+Theorem C19_server_ladder_obligation : ladder_contains ladder_as_read = true.
+Proof. exact ladder_as_read_contains. Qed.
+Print Assumptions C19_server_ladder_obligation.
+
+(* non-vacuity *)
+Example C19_unix_line_parses :
+  exists v, parse_list_line utf8 (fun _ => Ok [50; 48]) (fun _ => Exc ValueError)
+      [45; 114; 119; 45; 114; 45; 45; 114; 45; 45; 32; 49; 32; 111; 32; 103; 32; 49; 50; 32;
+       74; 97; 110; 32; 48; 51; 32; 49; 50; 58; 50; 57; 32; 110; 46; 116; 120; 116; 13; 10] = Ok v.
+Proof. exact unix_line_parses. Qed.
